@@ -7,6 +7,7 @@
 import Stevia.Generated.Facts
 import Stevia.Proofs.ArraySetState
 import Stevia.Proofs.GenASetRefine
+import Stevia.Proofs.GenViews
 
 namespace Stevia.C05
 open Stevia
@@ -66,5 +67,27 @@ theorem translated_copies_stay_inside {key : α → κ} {P : Nat} {s : ASet α} 
     rcases ASet.take_spec h (key x) with ⟨_, h3⟩ | ⟨y, s'', _, h3, _, _, h6, _⟩
     · rw [h3] at h2; cases h2; rfl
     · rw [h3] at h2; cases h2; exact h6
+
+/-- Byte level, through the translator: the two parts every handle is built from (translated `from_bytes` /
+    `from_bytes_mut` of every collection, all equal to `View.split`) are two adjacent sub-ranges of the caller's buffer —
+    the first `H` bytes and the rest — whose sizes add up to the buffer's; a buffer shorter than a header, or whose
+    remainder is not a whole number of records, is refused rather than read past its end. -/
+theorem translated_views_stay_inside (H R : Nat) (b : ByteArray) :
+    (∀ a n, GenV.avl32_from_bytes_mut H R b = some (a, n) ∨ GenV.avl8_from_bytes_mut H R b = some (a, n) ∨
+        GenV.hset_from_bytes_mut H R b = some (a, n) ∨ GenV.aset_from_bytes_mut H R b = some (a, n) ∨
+        GenV.avl32_from_bytes H R b = some (a, n) ∨ GenV.avl8_from_bytes H R b = some (a, n) ∨
+        GenV.hset_from_bytes H R b = some (a, n) ∨ GenV.aset_from_bytes H R b = some (a, n) →
+      a = b.extract 0 H ∧ n = b.extract H b.size ∧ a.size + n.size = b.size ∧ castOk R n.size) ∧
+    (b.size < H → GenV.aset_from_bytes_mut H R b = none ∧ GenV.avl32_from_bytes_mut H R b = none ∧
+      GenV.avl8_from_bytes_mut H R b = none ∧ GenV.hset_from_bytes_mut H R b = none) := by
+  refine ⟨?_, ?_⟩
+  · intro a n h
+    simp only [GenV.avl32_from_bytes_eq, GenV.avl32_from_bytes_mut_eq, GenV.avl8_from_bytes_eq, GenV.avl8_from_bytes_mut_eq,
+      GenV.hset_from_bytes_eq, GenV.hset_from_bytes_mut_eq, GenV.aset_from_bytes_eq, GenV.aset_from_bytes_mut_eq, or_self] at h
+    obtain ⟨h1, h2, _, h4, h5, _⟩ := View.split_parts h
+    exact ⟨h1, h2, h4, h5⟩
+  · intro hlt
+    have : View.split H R b = none := by unfold View.split; rw [if_neg]; omega
+    simp [GenV.avl32_from_bytes_mut_eq, GenV.avl8_from_bytes_mut_eq, GenV.hset_from_bytes_mut_eq, GenV.aset_from_bytes_mut_eq, this]
 
 end Stevia.C05
